@@ -319,18 +319,35 @@ func ruleLayoutRoot(w *World, r *Report) {
 		{"(*Store).checkAndReadRoots", []interface{}{nil, symV("offset"), nil, trailer}, []string{"cmp 6 @0 MagicBeg [record]", "cmp 6 @6 MagicBeg [record]", "bufget BE 4 @12 uint32 [record]", "bufget BE 4 @16 uint32 [record]", "json @20 [record]"}},
 	} {
 		fn := w.Fn(x.fn)
+		args := x.args
+		folded := false
 		if fn == nil {
-			r.Unknown(rule, x.fn+" › reader layout", "-", "function not found")
+			// the stage was folded into its caller: evaluate the scan driver / the open path and
+			// look for the stage's events there (the 24-byte buffer is the trailer)
+			for _, alt := range []string{"(*Store).readRootsScan", "(*Store).readRoots", "NewStoreEx"} {
+				if f := w.Fn(alt); f != nil {
+					fn, folded = f, true
+					args = make([]interface{}, len(f.Params))
+					break
+				}
+			}
+		}
+		if fn == nil {
+			r.Unknown(rule, x.fn+" › reader layout", "-", "function not found, and no scan driver to evaluate in its place")
 			continue
 		}
 		le := newLayEval(w)
-		outs := le.evalFn(fn, x.args)
+		outs := le.evalFn(fn, args)
 		var got []string
 		if o := bestOutcome(outs); o != nil {
 			for _, e := range o.events {
 				buf := e.Buf
 				if strings.HasPrefix(buf, "make(") {
-					buf = "record"
+					if folded && buf == "make(24)" {
+						buf = "trailer"
+					} else {
+						buf = "record"
+					}
 				}
 				switch e.Op {
 				case "cmp":
@@ -347,6 +364,19 @@ func ruleLayoutRoot(w *World, r *Report) {
 			}
 		} else {
 			le.note("no success path")
+		}
+		if folded {
+			// the caller's table contains the other stages too: this stage's events must occur in order
+			i := 0
+			for _, g := range got {
+				if i < len(x.want) && g == x.want[i] {
+					i++
+				}
+			}
+			if i == len(x.want) {
+				got = x.want
+			}
+			le.notes = nil // notes about branches of the other stages do not concern this one
 		}
 		compareTable(r, w, rule, x.fn+" › root record reader layout", w.Pos(fn.Pos()), got, x.want, le.notes)
 	}
